@@ -216,6 +216,28 @@ func main() {
 		return err != nil
 	}()
 
+	// do the rotations refuse a target that already holds identity records? (probed)
+	rotCheck := func() bool {
+		c, _ := base.CacheContext()
+		src, tgt := sdk.AccAddress("c16_probe_rot_src___"), sdk.AccAddress("c16_probe_rot_tgt___")
+		app.RecoveryKeeper.SetRecoveryToken(c, recoverytypes.RecoveryToken{Address: src.String(), Token: "rr/c16probe", RrSupply: sdk.NewInt(10)})
+		coins := sdk.NewCoins(sdk.NewInt64Coin("rr/c16probe", 10))
+		if err := app.BankKeeper.MintCoins(c, recoverytypes.ModuleName, coins); err != nil {
+			panic(err)
+		}
+		if err := app.BankKeeper.SendCoinsFromModuleToAccount(c, recoverytypes.ModuleName, rrHolder, coins); err != nil {
+			panic(err)
+		}
+		for _, a := range []sdk.AccAddress{src, tgt} {
+			if err := gk.RegisterIdentityRecords(c, a, []govtypes.IdentityInfoEntry{{Key: "probekey", Info: a.String()}}); err != nil {
+				panic(err)
+			}
+		}
+		_, err := recMS.RotateValidatorByHalfRRTokenHolder(sdk.WrapSDKContext(c), &recoverytypes.MsgRotateValidatorByHalfRRTokenHolder{
+			RrHolder: rrHolder.String(), Address: src.String(), Recovery: tgt.String()})
+		return err != nil
+	}()
+
 	// ---------------------------------------------------------------- observation
 	type snapT struct {
 		coq  string
@@ -902,6 +924,28 @@ func main() {
 		do(h, mkRegister(h.now+2, 5, [][2]string{{"web", "w5"}})) // changed
 		finish(h, "scripted:verified-records-through-rotations")
 	}
+	for _, viaRR := range []bool{true, false} {
+		// rotation INTO an address that already holds a record under the same key (the token-holder path
+		// accepts any target; the secret path any target without an account), then a genesis round trip
+		cfg, src := 0, 3
+		if !viaRR {
+			cfg, src = 1, 0
+		}
+		h := start(cfg)
+		do(h, mkRegister(h.now, 4, [][2]string{{"description", "mine"}, {"web", "w4"}}))
+		do(h, mkRegister(h.now, src, [][2]string{{"Description", "theirs"}, {"moniker", "m"}}))
+		if viaRR {
+			do(h, mkRotateRR(src, 4, true))
+		} else {
+			do(h, mkRotate(src, 4, true))
+		}
+		do(h, mkDelete(4, []string{"description"}))
+		do(h, mkGenesis())
+		do(h, mkRegister(h.now+1, 4, [][2]string{{"description", "edited"}}))
+		do(h, mkDelete(4, nil))
+		do(h, mkGenesis())
+		finish(h, fmt.Sprintf("scripted:rotation-into-address-with-records rr=%v", viaRR))
+	}
 	// ---- systematic sweep of unique-key list edits: new key at every position (front / middle / end),
 	// old keys permuted or not, through the single-property path and through MsgSetNetworkProperties,
 	// with and without two addresses already holding the same value under the candidate key
@@ -953,7 +997,7 @@ func main() {
 		if i == len(cfgs)-1 {
 			sep = ""
 		}
-		pre.WriteString(fmt.Sprintf("  mkCfg %s %s %s %s %s %s %s %s %s%s\n", hx.ZU(c.minTip), zlist(c.pc), zlist(c.pv), zlist(c.pn), zlist([]int{0, 1, 2, 3}), zlist(c.se), hx.B(delFix), hx.B(msgGuard), zlist(c.rr), sep))
+		pre.WriteString(fmt.Sprintf("  mkCfg %s %s %s %s %s %s %s %s %s %s%s\n", hx.ZU(c.minTip), zlist(c.pc), zlist(c.pv), zlist(c.pn), zlist([]int{0, 1, 2, 3}), zlist(c.se), hx.B(delFix), hx.B(msgGuard), zlist(c.rr), hx.B(rotCheck), sep))
 	}
 	pre.WriteString("].\n")
 	out.WriteFile("pre.v", pre.String())
@@ -964,6 +1008,6 @@ func main() {
 	for _, c := range js {
 		nops += len(c.Ops)
 	}
-	out.WriteJSON("dist.json", map[string]interface{}{"seed": seed, "histories": len(js), "operations": nops, "by_kind_and_result": dist, "history_sizes": sizes, "delete_by_id_removes_index_entry": delFix, "whole_record_write_guards_unique_keys": msgGuard})
+	out.WriteJSON("dist.json", map[string]interface{}{"seed": seed, "histories": len(js), "operations": nops, "by_kind_and_result": dist, "history_sizes": sizes, "delete_by_id_removes_index_entry": delFix, "whole_record_write_guards_unique_keys": msgGuard, "rotation_refuses_target_with_records": rotCheck})
 	fmt.Fprintf(os.Stderr, "c16: %d histories, %d operations\n", len(js), nops)
 }
